@@ -335,9 +335,9 @@ func (c *check) Init(tier string, seed int64) engine.Space {
 			"css_core_functions":   names(c.cssCore),
 			"css_transform_origin": onames,
 			"css_renders":          cssCases,
-		"box_kinds":            kindNames(c.kinds),
-		"box_kind_renders":     kindCases,
-		"box_kind_lists":       map[string]string{"quick": "one function of the whole menu x every origin; two functions of the menu made of the first core function of each name (translate, translateX, ..., matrix) x the origins (initial) and 1em 20%", "thorough": "one function of the whole menu, two functions of the core menu, both x every origin"}[tier],
+			"box_kinds":            kindNames(c.kinds),
+			"box_kind_renders":     kindCases,
+			"box_kind_lists":       map[string]string{"quick": "one function of the whole menu x every origin; two functions of the menu made of the first core function of each name (translate, translateX, ..., matrix) x the origins (initial) and 1em 20%", "thorough": "one function of the whole menu, two functions of the core menu, both x every origin"}[tier],
 			"shared_rule":          map[string]any{"documents": nSh, "transform_lists": len(c.shLists), "structures": sharedStructs, "origins": []string{"(initial)", "transform-origin:1em 1ex"}, "blocks": "a: font-size 10px 40x20; b: 30px 60x30; c: 15px 20x10; html 20px; Ahem: ex=.8em ch=1em"},
 			"svg_functions":        names(c.svgFns),
 			"svg_core_functions":   names(c.svgCore),
@@ -352,7 +352,7 @@ func (c *check) Init(tier string, seed int64) engine.Space {
 			"comparison tolerance for rendered matrices: |got-ref| <= 2e-4·(1+|ref|) per entry (float32 arithmetic in the implementation)",
 			"skew angles avoid tan singularities (0.125turn instead of 0.25turn) and near-singular products; for non-invertible lists (a factor scale(0) / scale(2, 0)) the element must either not be painted or be painted through the rank deficient reference matrix (no area): whether a rounded float32 determinant is exactly 0 is not decidable from the specification",
 			"one block (absolutely positioned, padding, no border) and one <rect>; nesting of transformed elements is explored by the shared-rule family only",
-		"box-kinds: the reference box is the painted background rectangle of the element (checked against the expected border box), extended by the 10px caption for the two caption kinds (CSS Transforms 1: the reference box of a table is the border box of its table wrapper box)",
+			"box-kinds: the reference box is the painted background rectangle of the element (checked against the expected border box), extended by the 10px caption for the two caption kinds (CSS Transforms 1: the reference box of a table is the border box of its table wrapper box)",
 			"numbers/lengths/angles outside the listed representatives behave like their representative",
 		},
 	}
